@@ -107,6 +107,8 @@ def interleaved_clause(cl, rng, n, replay):
         for kind in ("geometric_mean", "single_azimuth", "rotdpp", "diffuse_field", "psd", "azimuthal"):
             for width in (0.1, 0.6):
                 jobs.append((raws, kind, width))
+    # one job that needs an FFT longer than the 32768 floor: a length chosen for it must not leak into the other jobs' (default) settings
+    jobs.append(([rp.gen_window(rng, N=33000, dt=0.01, scale=1.0)], "geometric_mean", 0.1))
     ref = {}
     for rounds in range(max(2, n // 10)):
         order = rng.permutation(len(jobs))
